@@ -626,6 +626,41 @@ pub enum SupportsCond {
     And,
     Or,
     Not,
+    /// `( <supports-condition> )`
+    Paren(Vec<SupportsCond>),
+}
+
+pub fn emit_supports(cs: &[SupportsCond], e: &mut Emit, first_slot: Slot) {
+    for (i, c) in cs.iter().enumerate() {
+        e.slot(if i == 0 { first_slot.clone() } else { Slot::Sep });
+        match c {
+            SupportsCond::Decl(p, v) => {
+                e.open(Bracket::Paren);
+                e.slot(Slot::Opt);
+                e.decoy(TokKind::Ident(p.clone()));
+                e.slot(Slot::Opt);
+                e.tok(TokKind::Colon);
+                e.slot(Slot::Opt);
+                emit_values(v, e);
+                e.slot(Slot::Opt);
+                e.close(Bracket::Paren);
+            }
+            SupportsCond::Selector(sel) => {
+                e.open(Bracket::Func("selector".into()));
+                emit_selector_list(sel, e);
+                e.close(Bracket::Func("selector".into()));
+            }
+            SupportsCond::And => e.decoy(TokKind::Ident("and".into())),
+            SupportsCond::Or => e.decoy(TokKind::Ident("or".into())),
+            SupportsCond::Not => e.decoy(TokKind::Ident("not".into())),
+            SupportsCond::Paren(inner) => {
+                e.open(Bracket::Paren);
+                emit_supports(inner, e, Slot::Opt);
+                e.slot(Slot::Opt);
+                e.close(Bracket::Paren);
+            }
+        }
+    }
 }
 
 pub fn is_rule_bearing(name: &str) -> bool {
@@ -640,32 +675,7 @@ impl Prelude {
                 e.slot(Slot::Sep);
                 m.emit(e)
             }
-            Prelude::Supports(cs) => {
-                for c in cs {
-                    e.slot(Slot::Sep);
-                    match c {
-                        SupportsCond::Decl(p, v) => {
-                            e.open(Bracket::Paren);
-                            e.slot(Slot::Opt);
-                            e.decoy(TokKind::Ident(p.clone()));
-                            e.slot(Slot::Opt);
-                            e.tok(TokKind::Colon);
-                            e.slot(Slot::Opt);
-                            emit_values(v, e);
-                            e.slot(Slot::Opt);
-                            e.close(Bracket::Paren);
-                        }
-                        SupportsCond::Selector(sel) => {
-                            e.open(Bracket::Func("selector".into()));
-                            emit_selector_list(sel, e);
-                            e.close(Bracket::Func("selector".into()));
-                        }
-                        SupportsCond::And => e.decoy(TokKind::Ident("and".into())),
-                        SupportsCond::Or => e.decoy(TokKind::Ident("or".into())),
-                        SupportsCond::Not => e.decoy(TokKind::Ident("not".into())),
-                    }
-                }
-            }
+            Prelude::Supports(cs) => emit_supports(cs, e, Slot::Sep),
             Prelude::LayerName(parts) => {
                 e.slot(Slot::Sep);
                 for (i, p) in parts.iter().enumerate() {
